@@ -104,6 +104,13 @@ CHECKS.update({
                   'executed on the staged legacy package inside the domain C19 states.'),
 })
 
+CHECKS.update({
+ 'C20': dict(engine='cli', ref='6/C20', technique='TLA+ state machine of the command (Cli.tla) model-checked by TLC; every terminal state materialised and run against '
+             'the built binary',
+             text='All lists of up to 3 (quick) / 4 (thorough) patch-file arguments over 9 kinds of file x 3 stdin documents: exit status, no partial '
+                  'output, stderr on failure, stdout = fold of the library in command-line order (value and bytes).'),
+})
+
 NA = {}
 
 
@@ -141,6 +148,7 @@ def main():
             {'name': 'decode', 'path': 'spec/DecodePatch.tla spec/MCDecode.tla', 'serves_properties': ['C11'], 'kind_free_text': 'acceptance predicate of RFC 6902 patch documents and its mutation table'},
             {'name': 'text', 'path': 'spec/Scanner.tla spec/JsonText.tla spec/JsonEnc.tla spec/MCScanner.tla spec/MCCodec.tla', 'serves_properties': ['C16', 'C17', 'C04', 'C06'],
              'kind_free_text': 'scanner push-down automaton and its transducers transcribed to TLA+, declarative grammar, encoder spelling'},
+            {'name': 'cli', 'path': 'spec/Cli.tla', 'serves_properties': ['C20'], 'kind_free_text': 'state machine of cmd/json-patch'},
             {'name': 'patch', 'path': 'spec/Patch6902.tla spec/MCPatch.tla harness/cmd/replay', 'serves_properties':
                 ['C01', 'C05', 'C08', 'C12', 'C13', 'C14', 'C15'],
              'kind_free_text': 'TLA+ reference machine for RFC 6902 application, TLC-enumerated, transitions replayed into the library'},
